@@ -15,7 +15,7 @@ MANIFEST = {
             "answered from an explicit pre-state): copyfile, for every entry type (file, symlink, fifo, device), every pre-state "
             "(nothing there with or without a parent directory, an existing file / symlink / directory) and arbitrary mode / owner / "
             "mtime values present or absent, creates the entry of that type at the location (or at location#new followed by one "
-            "rename onto the location when something was there), applies owner, then mode and mtime (never mode or mtime to a "
+            "rename onto the location when something was there), applies owner, then mode and mtime (a symlink's own mtime without following it, never a mode to a "
             "symlink), touches no other path than the location, location#new and the missing parent, and refuses an existing "
             "directory; ensure_perms applies exactly the attributes that differ and keeps an existing directory's mode; mkdir creates "
             "with the recorded mode (0777 if none) then enforces attributes; do_link only links entry to entry, falls back through "
@@ -74,6 +74,8 @@ def t_copyfile(ex):
             perms.append(("chmod", fp))
         if present["mtime"]:
             perms.append(("utime", fp))
+    elif present["mtime"]:
+        perms.append(("lutime", fp))   # a symlink's own time, set without following it; it has no mode of its own
     want += perms
     if existed:
         want.append(("rename", fp))
@@ -89,7 +91,7 @@ def t_copyfile(ex):
             ex.oblige(f"{P}.ensures.owner_is_the_recorded_one", And(_same(e[2], o), _same(e[3], g)))
         if e[0] == "chmod":
             ex.oblige(f"{P}.ensures.mode_is_the_recorded_one", _same(e[2], obj.fields["mode"]))
-        if e[0] == "utime":
+        if e[0] in ("utime", "lutime"):
             ex.oblige(f"{P}.ensures.mtime_is_the_recorded_one", And(isinstance(e[2], tuple), _same(e[2][0], obj.fields["mtime"]), _same(e[2][1], obj.fields["mtime"])))
         if e[0] == "symlink":
             ex.oblige(f"{P}.ensures.symlink_target_is_the_recorded_one", e[2] == "the-target")
@@ -125,7 +127,10 @@ def t_ensure_perms(ex):
                      T if (present["uid"] or present["gid"]) else F)
     ex.oblige(f"{P}.ensures.owner_set_exactly_when_it_is_recorded_and_differs", _iff("lchown" in ops_done, want_chown, ex))
     if kinds[0] == "sym":
-        ex.oblige(f"{P}.ensures.never_mode_or_mtime_on_a_symlink", "chmod" not in ops_done and "utime" not in ops_done)
+        # chmod and a following utime would act on whatever the link points at
+        ex.oblige(f"{P}.ensures.never_through_a_symlink", "chmod" not in ops_done and "utime" not in ops_done)
+        want_mtime = F if not present["mtime"] else differs("mtime")
+        ex.oblige(f"{P}.ensures.the_links_own_mtime_set_exactly_when_recorded_and_differs", _iff("lutime" in ops_done, want_mtime, ex))
     else:
         keep_dir = kinds == ("dir", "dir")
         want_mode = F if (not present["mode"] or keep_dir) else differs("mode")
@@ -236,8 +241,11 @@ def _build(rnd, base, names):
             os.chmod(p, rnd.choice((0o755, 0o700, 0o775)))
         elif kind == "sym":
             os.symlink(rnd.choice(("a", "d1", "nowhere", "../x y")), p)
+            os.lchown(p, rnd.choice((0, 7)), rnd.choice((0, 9)))
+            os.utime(p, (2000 + rnd.randrange(50),) * 2, follow_symlinks=False)   # a recorded time of its own, not "now"
         elif kind == "fifo":
             os.mkfifo(p)
+            os.utime(p, (3000 + rnd.randrange(50),) * 2)
         elif kind == "hard" and files:
             os.link(rnd.choice(files), p)
         else:
@@ -308,8 +316,10 @@ def enum_merges(seed):
                     probs.append(f"{k}: expected {w[0]} {w[5]!r}, found {a[0]} {a[5]!r}")
                 elif w[0] != "sym" and (a[1], a[2], a[3]) != (w[1], w[2], w[3]):
                     probs.append(f"{k}: mode/owner {oct(a[1])} {a[2]}:{a[3]}, recorded {oct(w[1])} {w[2]}:{w[3]}")
-                elif w[0] == "file" and a[4] != w[4]:
-                    probs.append(f"{k}: mtime {a[4]}, recorded {w[4]}")
+                elif w[0] == "sym" and (a[2], a[3]) != (w[2], w[3]):   # a symlink has no mode of its own, but it has an owner
+                    probs.append(f"{k}: symlink owner {a[2]}:{a[3]}, recorded {w[2]}:{w[3]}")
+                elif a[4] != w[4]:   # every kind of entry but a directory (whose own time moves when its children arrive)
+                    probs.append(f"{k}: {w[0]} mtime {a[4]}, recorded {w[4]}")
             groups = {}
             for k, w in want.items():
                 if w[0] == "file":
